@@ -262,6 +262,9 @@ type Op struct {
 	// OCWhere: the rule carries OnConflict.Where `recs.age < excluded.age` - the stored row is only
 	// updated when the proposed age is higher (a conditional upsert)
 	OCWhere bool
+	// PreOC: an OnConflict rule that is already on the chain when the operation adds its own (a default
+	// set on a session, say): the later rule replaces it as a whole
+	PreOC string // "" | nothing-code | updates-code
 	// first-or-*: the chain starts with Unscoped() (soft-deleted rows are matched, and written)
 	Unscoped bool
 	// first-or-*
@@ -290,6 +293,9 @@ func (a Attr) String() string {
 func (o Op) String() string {
 	switch o.Kind {
 	case "save":
+		if o.PreOC != "" {
+			return fmt.Sprintf("Clauses(OnConflict{%s}).Save(%+v)", o.PreOC, o.V)
+		}
 		return fmt.Sprintf("Save(%+v)", o.V)
 	case "saveslice":
 		return fmt.Sprintf("Save(&[]T%+v)", o.Vs)
@@ -297,6 +303,9 @@ func (o Op) String() string {
 		w := ""
 		if o.OCWhere {
 			w = " WHERE recs.age < excluded.age"
+		}
+		if o.PreOC != "" {
+			w += " (after an earlier OnConflict{" + o.PreOC + "} on the chain)"
 		}
 		if o.MapCols != nil {
 			return fmt.Sprintf("Model(&T{}).Create(map of %+v with columns id,code,%v) OnConflict{%s %v%s}", o.V, o.MapCols, o.Rule, o.Subset, w)
@@ -426,6 +435,13 @@ func condValue(conds []Attr, form string, kind int) interface{} {
 }
 
 // fixedValue is what an assign-* rule writes into column c on conflict.
+func preClause(name string) clause.OnConflict {
+	if name == "updates-code" {
+		return clause.OnConflict{Columns: []clause.Column{{Name: "code"}}, DoUpdates: clause.AssignmentColumns([]string{"note"})}
+	}
+	return clause.OnConflict{Columns: []clause.Column{{Name: "code"}}, DoNothing: true}
+}
+
 func fixedValue(c string) interface{} {
 	if c == "age" {
 		return 9
@@ -437,12 +453,19 @@ func fixedValue(c string) interface{} {
 func chainLen(o Op) int {
 	switch o.Kind {
 	case "save", "saveslice":
+		if o.PreOC != "" {
+			return 1
+		}
 		return 0
 	case "upsert":
+		n := 1
 		if o.MapCols != nil {
-			return 2
+			n = 2
 		}
-		return 1
+		if o.PreOC != "" {
+			n++
+		}
+		return n
 	}
 	n := 0
 	if o.Unscoped {
@@ -467,6 +490,9 @@ func run(d *testdb.DB, kind int, o Op, v variant) Outcome {
 	switch o.Kind {
 	case "save":
 		tx := v.apply(db, 0)
+		if o.PreOC != "" {
+			tx = v.apply(tx.Clauses(preClause(o.PreOC)), 1)
+		}
 		r := recOf(kind, o.V)
 		res = tx.Save(r.Interface())
 		out.Out, out.OutValid = rowOf(r), true
@@ -519,13 +545,25 @@ func run(d *testdb.DB, kind int, o Op, v variant) Outcome {
 				}
 			}
 			tx := v.apply(db, 0).Model(newRec(kind).Interface())
-			tx = v.apply(tx, 1).Clauses(oc)
-			tx = v.apply(tx, 2)
+			at := 1
+			if o.PreOC != "" {
+				tx = v.apply(tx, at).Clauses(preClause(o.PreOC))
+				at++
+			}
+			tx = v.apply(tx, at).Clauses(oc)
+			tx = v.apply(tx, at+1)
 			res = tx.Create(mv)
 			break
 		}
-		tx := v.apply(db, 0).Clauses(oc)
-		tx = v.apply(tx, 1)
+		tx := v.apply(db, 0)
+		at := 0
+		if o.PreOC != "" {
+			tx = tx.Clauses(preClause(o.PreOC))
+			at++
+			tx = v.apply(tx, at)
+		}
+		tx = tx.Clauses(oc)
+		tx = v.apply(tx, at+1)
 		res = tx.Create(recOf(kind, o.V).Interface())
 	default:
 		tx := db
@@ -1110,6 +1148,10 @@ func genOp(t *rapid.T, m *Model) Op {
 	switch kind {
 	case "save":
 		o.V = genVal(t, "v", m.Kind)
+		if o.V.ID != 0 && rapid.IntRange(0, 4).Draw(t, "preoc") == 0 {
+			// with a zero key Save is a plain Create and the caller's rule is the one in effect
+			o.PreOC = rapid.SampledFrom([]string{"nothing-code", "updates-code"}).Draw(t, "preocRule")
+		}
 	case "saveslice":
 		ids := rapid.Permutation([]int{1, 2, 3, 4, 5}).Draw(t, "ids")
 		codes := rapid.Permutation([]string{"c1", "c2", "c3", "c4", ""}).Draw(t, "codes")
@@ -1129,6 +1171,9 @@ func genOp(t *rapid.T, m *Model) Op {
 					o.Subset = append(o.Subset, c)
 				}
 			}
+		}
+		if rapid.IntRange(0, 4).Draw(t, "preoc") == 0 {
+			o.PreOC = rapid.SampledFrom([]string{"nothing-code", "updates-code"}).Draw(t, "preocRule")
 		}
 		if o.Rule != "nothing" && o.Rule != "nothing-id" {
 			o.OCWhere = rapid.IntRange(0, 3).Draw(t, "ocwhere") == 0
@@ -1257,6 +1302,9 @@ func TestC16(t *testing.T) {
 				classes["rule:"+o.Rule] = true
 				if o.OCWhere {
 					classes["upsert:conditional(OnConflict.Where)"] = true
+				}
+				if o.PreOC != "" {
+					classes["upsert:after-an-earlier-OnConflict-on-the-chain"] = true
 				}
 				if o.MapCols != nil {
 					classes["upsert:map-value"] = true
